@@ -31,6 +31,11 @@ fn main() {
         );
     }
 
+    if args.get_one::<u32>("num_threads") == Some(&0) {
+        error!("At least one worker thread is required (--num-threads).");
+        std::process::exit(exitcode::USAGE);
+    }
+
     // Parse rooms list
     let (rooms, room_kinds) = parse_rooms(
         args.get_one::<String>("rooms").map(|x| x.deref()),
@@ -71,7 +76,12 @@ fn main() {
         std::process::exit(exitcode::DATAERR)
     });
 
-    // In debug build: Check consistency of imported data
+    // Check consistency of imported data (invalid indexes would make the solver panic)
+    if let Err(e) = cdecao::io::check_data_consistency(&participants, &courses) {
+        error!("Inconsistent input data: {}", e);
+        std::process::exit(exitcode::DATAERR);
+    }
+    // In debug build: Additionally check consistency of internal indexes
     if cfg!(debug_assertions) {
         cdecao::io::assert_data_consitency(&participants, &courses);
     }
